@@ -69,6 +69,8 @@ Theorem C37_wrong_key_kind_is_error : forall e t obj,
   (forall i nt, lookup_type (tx_all t) obj = Some OText -> step e t (CPutObj obj (PSeq i) nt) = EErr EInvalidOp) /\
   (forall i z, lookup_type (tx_all t) obj = Some OMap -> step e t (CInc obj (PSeq i) z) = EErr EInvalidOp) /\
   (forall i, lookup_type (tx_all t) obj = Some OMap -> step e t (CDelete obj (PSeq i)) = EErr EInvalidOp) /\
+  (forall k, lookup_type (tx_all t) obj = Some OList -> step e t (CDelete obj (PMap k)) = EErr EInvalidOp) /\
+  (forall k, lookup_type (tx_all t) obj = Some OText -> step e t (CDelete obj (PMap k)) = EErr EInvalidOp) /\
   (forall i d s, lookup_type (tx_all t) obj = Some OList -> step e t (CSpliceText obj i d s) = EErr EInvalidOp).
 Proof. exact wrong_key_kind_error. Qed.
 Theorem C37_index_out_of_range_is_error : forall e t obj i,
